@@ -19,9 +19,37 @@ pub struct Req<'a> {
     pub trace: bool,
     pub bytes: &'a [u8],
     pub splits: Option<Vec<usize>>,
+    pub stack: bool,
+    /// stop after this many items (0 = no limit)
+    pub max_items: usize,
 }
 
 pub const CAP: usize = 200_000;
+
+/// Bytes of a source or of a slice of it (str and [u8]).
+pub trait Bytes {
+    fn bytes_of(&self) -> &[u8];
+}
+impl Bytes for str {
+    fn bytes_of(&self) -> &[u8] {
+        self.as_bytes()
+    }
+}
+impl Bytes for [u8] {
+    fn bytes_of(&self) -> &[u8] {
+        self
+    }
+}
+impl<'a> Bytes for &'a str {
+    fn bytes_of(&self) -> &[u8] {
+        self.as_bytes()
+    }
+}
+impl<'a> Bytes for &'a [u8] {
+    fn bytes_of(&self) -> &[u8] {
+        self
+    }
+}
 
 fn ev_dump(out: &mut String) {
     let evs = logos::verif::drain();
@@ -38,7 +66,14 @@ pub fn run<'s, T>(src: &'s T::Source, req: &Req, out: &mut String)
 where
     T: Logos<'s> + Debug,
     T::Extras: Default,
+    T::Source: Bytes,
+    <T::Source as logos::Source>::Slice<'s>: Bytes,
 {
+    let all = src.bytes_of();
+    let mut badslice = 0usize;
+    let mut stack_lo = usize::MAX;
+    let mut stack_hi = 0usize;
+    let mut nev = 0usize;
     let mut lex: Lexer<'s, T> = if req.partial {
         Lexer::new_partial(src)
     } else {
@@ -48,11 +83,26 @@ where
     let mut n = 0usize;
     let mut capped = false;
     loop {
-        if req.trace {
+        if req.trace || req.stack {
             logos::verif::start();
         }
         let item = lex.next();
         let sp = lex.span();
+        if req.stack {
+            for e in logos::verif::drain() {
+                stack_lo = stack_lo.min(e.d);
+                stack_hi = stack_hi.max(e.d);
+                nev += 1;
+            }
+        }
+        // C04/C14: slice() == source[span()], remainder() == source[span().end..]
+        if sp.start <= sp.end && sp.end <= all.len() {
+            if lex.slice().bytes_of() != &all[sp.clone()] || lex.remainder().bytes_of() != &all[sp.end..] {
+                badslice += 1;
+            }
+        } else {
+            badslice += 1;
+        }
         let Some(item) = item else {
             break;
         };
@@ -76,13 +126,16 @@ where
             out.push(']');
         }
         out.push(']');
-        if n >= CAP {
+        if n >= CAP || (req.max_items > 0 && n >= req.max_items) {
             capped = true;
             break;
         }
     }
     let sp = lex.span();
-    let _ = write!(out, "],\"fin\":[{},{}],\"capped\":{}", sp.start, sp.end, capped);
+    let _ = write!(out, "],\"fin\":[{},{}],\"capped\":{},\"badslice\":{}", sp.start, sp.end, capped, badslice);
+    if req.stack {
+        let _ = write!(out, ",\"stack\":{},\"nev\":{}", stack_hi.saturating_sub(stack_lo.min(stack_hi)), nev);
+    }
     if req.trace {
         out.push_str(",\"finev\":[");
         ev_dump(out);
@@ -190,6 +243,59 @@ fn unhex(s: &str) -> Vec<u8> {
     v
 }
 
+/// C05: the public `Source::read` on str, [u8] and Deref wrappers.
+/// request: `R <kind> <len> <off> <n>`; off may be `MAX-k`.
+fn source_read(parts: &mut std::str::Split<char>) -> String {
+    use logos::Source;
+    let kind = parts.next().unwrap_or("");
+    let len: usize = parts.next().unwrap().parse().unwrap();
+    let offs = parts.next().unwrap();
+    let off: usize = if let Some(k) = offs.strip_prefix("MAX-") {
+        usize::MAX - k.parse::<usize>().unwrap()
+    } else {
+        offs.parse().unwrap()
+    };
+    let n: usize = parts.next().unwrap().parse().unwrap();
+    let data: Vec<u8> = (0..len).map(|i| b'a' + (i % 26) as u8).collect();
+    let boxed: Box<[u8]> = data.clone().into_boxed_slice();
+    let text: String = String::from_utf8(data.clone()).unwrap();
+    let boxed_str: Box<str> = text.clone().into_boxed_str();
+    fn show(r: Option<Vec<u8>>) -> String {
+        match r {
+            Some(v) => format!("\"some\":true,\"bytes\":\"{}\"", v.iter().map(|b| format!("{b:02x}")).collect::<String>()),
+            None => "\"some\":false".to_string(),
+        }
+    }
+    macro_rules! rd {
+        ($src:expr) => {{
+            let src = $src;
+            match n {
+                0 => src.read::<u8>(off).map(|b| vec![b]),
+                1 => src.read::<&[u8; 1]>(off).map(|a| a.to_vec()),
+                2 => src.read::<&[u8; 2]>(off).map(|a| a.to_vec()),
+                3 => src.read::<&[u8; 3]>(off).map(|a| a.to_vec()),
+                4 => src.read::<&[u8; 4]>(off).map(|a| a.to_vec()),
+                5 => src.read::<&[u8; 5]>(off).map(|a| a.to_vec()),
+                7 => src.read::<&[u8; 7]>(off).map(|a| a.to_vec()),
+                8 => src.read::<&[u8; 8]>(off).map(|a| a.to_vec()),
+                9 => src.read::<&[u8; 9]>(off).map(|a| a.to_vec()),
+                16 => src.read::<&[u8; 16]>(off).map(|a| a.to_vec()),
+                32 => src.read::<&[u8; 32]>(off).map(|a| a.to_vec()),
+                _ => None,
+            }
+        }};
+    }
+    let r = match kind {
+        "str" => rd!(&*boxed_str),
+        "bytes" => rd!(&*boxed),
+        "string" => rd!(&text),
+        "vec" => rd!(&data),
+        "boxstr" => rd!(&boxed_str),
+        _ => None,
+    };
+    show(r)
+}
+
 fn main() {
     std::panic::set_hook(Box::new(|_| {}));
     let stdin = std::io::stdin();
@@ -203,14 +309,43 @@ fn main() {
             continue;
         }
         let mut out = String::from("{");
+        if first == "R" {
+            let r = catch_unwind(AssertUnwindSafe(|| source_read(&mut parts)));
+            match r {
+                Ok(b) => out.push_str(&b),
+                Err(_) => out.push_str("\"panic\":\"panic\""),
+            }
+            out.push('}');
+            writeln!(w, "{}", out).unwrap();
+            w.flush().unwrap();
+            continue;
+        }
         let idx: usize = first.parse().unwrap();
         let flags = parts.next().unwrap_or("f");
-        let bytes = unhex(parts.next().unwrap_or(""));
+        // `hex` or `hex*count[+hex]` (repetition, for very long inputs)
+        let spec = parts.next().unwrap_or("");
+        let bytes = if let Some((unit, rest)) = spec.split_once('*') {
+            let (count, tail) = match rest.split_once('+') {
+                Some((c, t)) => (c, t),
+                None => (rest, ""),
+            };
+            let u = unhex(unit);
+            let mut v = Vec::new();
+            for _ in 0..count.parse::<usize>().unwrap() {
+                v.extend_from_slice(&u);
+            }
+            v.extend_from_slice(&unhex(tail));
+            v
+        } else {
+            unhex(spec)
+        };
         // exactly-sized heap allocation: the source ends at the end of the allocation
         let boxed: Box<[u8]> = bytes.into_boxed_slice();
         let req = Req {
             partial: flags.contains('p'),
             trace: flags.contains('t'),
+            stack: flags.contains('k'),
+            max_items: flags.chars().filter(|c| c.is_ascii_digit()).collect::<String>().parse().unwrap_or(0),
             bytes: &boxed,
             splits: if flags.contains('c') {
                 Some(parts.next().unwrap_or("").split(',').filter(|s| !s.is_empty()).map(|s| s.parse().unwrap()).collect())
